@@ -29,6 +29,11 @@ def generate(rng: random.Random, tier: str):
         cases.append({'kind': 'recon', 'traj': rng.choice(['cart_full', 'cart_full', 'cart_under', 'radial']), 'n': rng.choice([4, 4, 6]), 'coils': rng.choice([2, 3]),
                       'csm': rng.random() < 0.7, 'dcf': rng.random() < 0.5, 'noise': rng.random() < 0.4, 'lam': rng.choice([0.0, 0.0, 0.1, 2.0]),
                       'reg_data': rng.choice(['zero', 'image']), 'reg_op': rng.choice(['identity', 'diag']), 'iters': rng.choice([1, 2, 3, 5]), 'seed': rng.randrange(1 << 30)})
+    # 3-D Cartesian data (k2 > 1, different from k1) with a noise scan, and spatially varying regularisation weights with zeros
+    for i in range(24 if thorough else 6):
+        cases.append({'kind': 'recon', 'traj': 'cart_full', 'n': 4, 'nz': rng.choice([2, 3]) if i % 2 == 0 else 1, 'coils': rng.choice([2, 3]), 'csm': rng.random() < 0.7,
+                      'dcf': False, 'noise': i % 2 == 0 or rng.random() < 0.4, 'lam': 'map' if i % 2 == 1 else rng.choice([0.0, 0.1]),
+                      'reg_data': rng.choice(['zero', 'image']), 'reg_op': rng.choice(['identity', 'diag']), 'iters': rng.choice([1, 2, 3]), 'seed': rng.randrange(1 << 30)})
     return cases
 
 
@@ -36,7 +41,7 @@ def make(case, rng):
     from mrpro.data import CsmData, DcfData, KData, KNoise, QHeader
     from mrpro.data.traj_calculators import KTrajectoryCartesian, KTrajectoryRadial2D
 
-    n, coils = case['n'], case['coils']
+    n, coils, nz = case['n'], case['coils'], case.get('nz', 1)
     if case['traj'] == 'radial':
         lines = list(range(2 * n))
         calc = KTrajectoryRadial2D(angle=math.pi / (2 * n))
@@ -46,13 +51,13 @@ def make(case, rng):
     else:
         lines = list(range(n))
         calc = KTrajectoryCartesian()
-    acqs = [{'labels': {'k1': k1, 'k2': 0}, 'id': i + 1, 'flags': 0} for i, k1 in enumerate(lines)]
+    acqs = [{'labels': {'k1': k1, 'k2': k2}, 'id': i + 1 + k2 * len(lines), 'flags': 0} for k2 in range(nz) for i, k1 in enumerate(lines)]
     rng.shuffle(acqs)
-    fn = mrd.write_file(acqs, n_k0=n, n_coils=coils, enc_matrix=(n, n, 1), limits={'k1': (0, n - 1, n // 2)})
+    fn = mrd.write_file(acqs, n_k0=n, n_coils=coils, enc_matrix=(n, n, nz), limits={'k1': (0, n - 1, n // 2), 'k2': (0, nz - 1, nz // 2)})
     kd = KData.from_file(fn, calc)
     g = torch.Generator().manual_seed(case['seed'])
-    img = torch.randn(1, 1, 1, n, n, dtype=torch.complex64, generator=g)
-    csm_t = torch.randn(1, coils, 1, n, n, dtype=torch.complex64, generator=g) * 0.5 + 1.0
+    img = torch.randn(1, 1, nz, n, n, dtype=torch.complex64, generator=g)
+    csm_t = torch.randn(1, coils, nz, n, n, dtype=torch.complex64, generator=g) * 0.5 + 1.0
     return kd, img, csm_t, g
 
 
@@ -91,7 +96,7 @@ def run(case, drv) -> Outcome:
     warnings.filterwarnings('ignore')
     rng = random.Random(case['seed'])
     kd, img, csm_t, g = make(case, rng)
-    n, coils = case['n'], case['coils']
+    n, coils, nz = case['n'], case['coils'], case.get('nz', 1)
     cfg = ' '.join(f'{k}={v}' for k, v in case.items() if k not in ('kind', 'seed'))
     viol = None
     corr = None
@@ -104,14 +109,14 @@ def run(case, drv) -> Outcome:
     S = csm.as_operator() if csm is not None else None
     dcf = DcfData.from_traj_voronoi(kd.traj) if case['dcf'] else None
     # consistent data: y = F S x
-    x_true = img if case['csm'] else img.expand(1, coils, 1, n, n).clone()
+    x_true = img if case['csm'] else img.expand(1, coils, nz, n, n).clone()
     y = F(S(img)[0] if S is not None else x_true)[0]
     object.__setattr__(kd, 'data', y.to(torch.complex64))
     noise = None
     if case['noise']:
         mix = torch.randn(coils, coils, dtype=torch.complex64, generator=g)
         noise = KNoise((mix @ torch.randn(coils, 256, dtype=torch.complex64, generator=g)).reshape(1, coils, 1, 1, 256))
-    dom = (1, 1, 1, n, n) if case['csm'] else (1, coils, 1, n, n)
+    dom = (1, 1, nz, n, n) if case['csm'] else (1, coils, nz, n, n)
     A_op = (F @ S) if S is not None else F
     A = dense_matrix(A_op, dom)
     W = torch.diag(dcf.data.expand(1, *kd.data.shape[2:]).reshape(-1).repeat(coils).to(torch.complex128)) if dcf is not None else torch.eye(A.shape[0], dtype=torch.complex128)
@@ -155,11 +160,19 @@ def run(case, drv) -> Outcome:
             viol = viol or v('direct-linear', 'direct reconstruction is not linear in the data')
     # ---- (regularised) iterative SENSE = CG iterate of (A^H W A + lam B) x = A^H W y + lam x0, start = rhs
     lam = case['lam']
+    lam_vec = None
+    if lam == 'map':
+        # spatially varying weight with zeros (e.g. regularisation only inside a mask)
+        lam_t = torch.tensor([rng.choice([0.0, 0.0, 0.5, 2.0]) for _ in range(math.prod(dom))], dtype=torch.float32).reshape(dom)
+        lam_t.reshape(-1)[0], lam_t.reshape(-1)[-1] = 0.0, 2.0
+        lam_vec = lam_t.reshape(-1).to(torch.complex128)
+        lam = lam_t
     bdiag = (torch.rand(dom, generator=g) + 0.5) if case['reg_op'] == 'diag' else torch.ones(dom)
     Bop = mrpro.operators.EinsumOp(bdiag.to(torch.complex64), '..., ... -> ...') if case['reg_op'] == 'diag' else None
     x0 = (img if case['csm'] else x_true) if case['reg_data'] == 'image' else torch.zeros(dom, dtype=torch.complex64)
-    H = A.conj().T @ W @ A + lam * torch.diag(bdiag.reshape(-1).to(torch.complex128))
-    rhs = A.conj().T @ (W @ yv) + lam * x0.reshape(-1).to(torch.complex128)
+    lam_d = lam_vec if lam_vec is not None else lam
+    H = A.conj().T @ W @ A + torch.diag(lam_d * bdiag.reshape(-1).to(torch.complex128))
+    rhs = A.conj().T @ (W @ yv) + lam_d * x0.reshape(-1).to(torch.complex128)
     st, rec = call(lambda: RegularizedIterativeSENSEReconstruction(None, fourier_op=F, csm=csm, noise=noise, dcf=dcf, n_iterations=case['iters'], regularization_data=x0, regularization_weight=lam,
                                                                    regularization_op=Bop)(kd))
     if st != 'ok':
@@ -178,12 +191,12 @@ def run(case, drv) -> Outcome:
                 mx = torch.tensor([complex(float(a), float(b)) for a, b in map(parse_scal, m['x'])], dtype=torch.complex128)
                 if rel(rec.data, mx) > 5 * TOL:
                     corr = f'{cfg}: iterate {case["iters"]} differs from the exact run of the Lean CG model on the dense system (rel {rel(rec.data, mx):.2e})'
-        if lam == 0.0:
+        if lam_vec is None and lam == 0.0:
             st2, rec2 = call(lambda: IterativeSENSEReconstruction(None, fourier_op=F, csm=csm, noise=noise, dcf=dcf, n_iterations=case['iters'])(kd))
             if st2 == 'ok' and rel(rec2.data, rec.data.reshape(-1).to(torch.complex128)) > TOL:
                 viol = viol or v('lambda-zero', 'regularised reconstruction with weight 0 differs from IterativeSENSEReconstruction')
         # homogeneity in the data (CG started at the right-hand side): recon(c y) = c recon(y) for lam-term scaled alike
-        if lam == 0.0 or case['reg_data'] == 'zero':
+        if (lam_vec is None and lam == 0.0) or case['reg_data'] == 'zero':
             kd_s = type(kd)(kd.header, 3.0 * kd.data, kd.traj)
             st3, rec3 = call(lambda: RegularizedIterativeSENSEReconstruction(None, fourier_op=F, csm=csm, noise=noise, dcf=dcf, n_iterations=case['iters'], regularization_data=x0,
                                                                              regularization_weight=lam, regularization_op=Bop)(kd_s))
@@ -198,7 +211,7 @@ def run(case, drv) -> Outcome:
             sol = torch.linalg.solve(H, rhs)
             if rel(full.data, sol) > 20 * TOL:
                 viol = viol or v('least-squares', f'with many iterations the result differs from the (regularised) least-squares image (rel {rel(full.data, sol):.2e})')
-            if lam == 0.0 and noise is None and case['traj'] == 'cart_full' and rel(full.data, (img if case['csm'] else x_true).reshape(-1).to(torch.complex128)) > 20 * TOL:
+            if lam_vec is None and lam == 0.0 and noise is None and case['traj'] == 'cart_full' and rel(full.data, (img if case['csm'] else x_true).reshape(-1).to(torch.complex128)) > 20 * TOL:
                 viol = viol or v('consistent-data', 'consistent fully sampled data does not reproduce the true image')
-    return Outcome(key=('recon', cfg), corr=corr, viol=viol, branches=[f'traj:{case["traj"]}', f'csm:{case["csm"]}', f'dcf:{case["dcf"]}', f'noise:{case["noise"]}', f'lam:{lam}',
+    return Outcome(key=('recon', cfg), corr=corr, viol=viol, branches=[f'traj:{case["traj"]}', f'csm:{case["csm"]}', f'dcf:{case["dcf"]}', f'noise:{case["noise"]}', f'lam:{case["lam"]}', f'nz:{nz}',
                                                                       f'iters:{case["iters"]}'], sample=case)
